@@ -761,7 +761,7 @@ def run(ctx):
     driver_ok = ctx["driver_ok"]
     budget = C.Budget(tier, 9000, 300000).n
     if ctx["widened"]:
-        budget *= 4
+        budget *= 2
     res.rule = ("datagrams from six streams (corpus; uniform random; wire-built valid messages and messages from the library's encoder, "
                 "plain and mutated by bit flips/truncation/insertion/count- and length-field corruption; pointer graphs: chains up to depth 4000, cycles, "
                 "self/forward references, pointers into rdata, empty-label chains; exhaustive strings over {00,01,3F,40,C0,0C,FF,'a'} behind two fixed headers); "
